@@ -1,18 +1,26 @@
-(* The cache invariant of Model/MetaEdit.v: in every state reached without
-   installing pyecore's replacement linearisation (flag = false), the
-   linearisation that Python caches for every class is the C3 merge of the
-   cached linearisations of its current bases (local consistency), the
-   subclass registry is the inverse of the bases relation, and the bases
-   graph is acyclic.  From these: `consistent` (the cache is what a
-   linearisation from scratch over the current bases gives), which the
-   `_partial` theorems of Props/C12.v take as a premise.
+(* The cache invariant of Model/MetaEdit.v, for every reachable state (pyecore's
+   replacement linearisation installed or not): the linearisation that Python
+   caches for every class is what the metaclass computes from the cached
+   linearisations of its current bases (local consistency: the C3 merge, or the
+   replacement when it is installed and C3 fails), the subclass registry is
+   the inverse of the bases relation, and the bases graph is acyclic (GInv).
+   From these:
+   - every cached linearisation lists exactly the classes reachable through
+     the current bases (GInv_MR, closed_caches), in every state;
+   - without the replacement (flag = false) the cache is the linearisation
+     from scratch over the current bases: `consistent`, the premise of the
+     state-level `_partial` theorems of Props/C12.v (GInv_consistent);
+   - the visibility / isinstance theorems of MetaEditProofs.v again, from
+     closed caches alone, and for whole histories from the empty state.
 
    The heart is mro_hierarchy's traversal (`hier`): a class, then each
    registered subclass, depth first, without a visited set.  Every visit
    re-establishes local consistency of the visited class and breaks it at
    most for its registered subclasses, which are visited next; hence a
-   successful traversal ends with local consistency everywhere
-   (hier_lc).  Failures roll back (the model returns the old state). *)
+   successful traversal ends with local consistency at every class it visited
+   and at every class that had it (hier_lc).  Failures roll back (the model
+   returns the old state).  Nothing here depends on side conditions of the
+   edits; the model's fuel is shown sufficient (chain_bound). *)
 From Coq Require Import String Ascii ZArith Bool List Lia Permutation.
 From PyecoreV Require Import Lib.PyBase Lib.PyList Model.C3 Model.Operations Model.MetaEdit Proofs.PyListFacts Proofs.C3Proofs Proofs.OperationsProofs Proofs.MetaEditProofs.
 Import ListNotations.
@@ -109,12 +117,135 @@ Proof.
   destruct (getc st x), (getc st' x); try tauto. f_equal. apply HR. assumption.
 Qed.
 
+(* ---------- paths in a class graph; the expansion all_bases ---------- *)
+
+Section Chains.
+  Variable g : Z -> list Z.
+
+  (* p: the classes after c on a path from c to x along g *)
+  Fixpoint chain (c : Z) (p : list Z) (x : Z) : Prop :=
+    match p with
+    | [] => x = c
+    | b :: p' => In b (g c) /\ chain b p' x
+    end.
+
+  Lemma reach_chain c x : reach g c x -> exists p, chain c p x.
+  Proof.
+    induction 1 as [c|c b x Hb _ (p & IH)]; [exists []; reflexivity|].
+    exists (b :: p). split; assumption.
+  Qed.
+
+  Lemma chain_reach p : forall c x, chain c p x -> reach g c x.
+  Proof.
+    induction p as [|b p IH]; intros c x H; simpl in H.
+    - subst. constructor.
+    - destruct H as [Hb H]. eapply reach_step; [exact Hb|]. apply IH. exact H.
+  Qed.
+
+  Lemma chain_In_reach p : forall c x y, chain c p x -> In y p -> reach g c y.
+  Proof.
+    induction p as [|b p IH]; intros c x y H Hy; [destruct Hy|]. simpl in H. destruct H as [Hb H].
+    destruct Hy as [Hy|Hy].
+    - subst. eapply reach_step; [exact Hb|constructor].
+    - eapply reach_step; [exact Hb|]. eapply IH; eauto.
+  Qed.
+
+  Lemma flat_map_ext_in {A B} (f f' : A -> list B) l :
+    (forall a, In a l -> f a = f' a) -> flat_map f l = flat_map f' l.
+  Proof.
+    induction l as [|a l IH]; intros H; simpl; [reflexivity|].
+    rewrite (H a (or_introl eq_refl)), IH; [reflexivity|]. intros b Hb. apply H. right. exact Hb.
+  Qed.
+
+  (* all_bases lists what non-empty paths of bounded length reach *)
+  Lemma chain_all_bases f : forall c p x,
+    chain c p x -> p <> [] -> (length p <= f)%nat -> In x (all_bases g f c).
+  Proof.
+    induction f as [|f IH]; intros c p x H Np Len.
+    - destruct p; [congruence|simpl in Len; lia].
+    - destruct p as [|b p]; [congruence|]. simpl in H. destruct H as [Hb H]. simpl.
+      apply in_or_app. destruct p as [|b' p].
+      + simpl in H. subst. left. exact Hb.
+      + right. apply in_flat_map. exists b. split; [exact Hb|].
+        apply (IH b (b' :: p) x H); [discriminate|simpl in *; lia].
+  Qed.
+
+  Lemma all_bases_sound f : forall c x, In x (all_bases g f c) -> exists b, In b (g c) /\ reach g b x.
+  Proof.
+    induction f as [|f IH]; intros c x H; simpl in H; [destruct H|].
+    apply in_app_or in H. destruct H as [H|H].
+    - exists x. split; [exact H|constructor].
+    - apply in_flat_map in H. destruct H as (b & Hb & H). destruct (IH b x H) as (b' & Hb' & R).
+      exists b. split; [exact Hb|]. eapply reach_step; eauto.
+  Qed.
+
+  (* more fuel than the longest path changes nothing *)
+  Lemma all_bases_stable f : forall c,
+    (forall p x, chain c p x -> (length p <= f)%nat) -> all_bases g (S f) c = all_bases g f c.
+  Proof.
+    induction f as [|f IH]; intros c H.
+    - assert (E : g c = []).
+      { destruct (g c) as [|b r] eqn:E; [reflexivity|]. exfalso.
+        assert (Hc : chain c [b] b) by (simpl; rewrite E; split; [left|]; reflexivity).
+        specialize (H _ _ Hc). simpl in H. lia. }
+      simpl. rewrite E. reflexivity.
+    - change (g c ++ flat_map (all_bases g (S f)) (g c) = g c ++ flat_map (all_bases g f) (g c)).
+      f_equal. apply flat_map_ext_in. intros b Hb. apply IH. intros p x Hp.
+      assert (Hc : chain c (b :: p) x) by (split; assumption). specialize (H _ _ Hc). simpl in H. lia.
+  Qed.
+
+  (* the expansion only looks at what c reaches *)
+  Lemma all_bases_ext_reach (g' : Z -> list Z) f : forall c,
+    (forall y, reach g c y -> g' y = g y) -> all_bases g' f c = all_bases g f c.
+  Proof.
+    induction f as [|f IH]; intros c H; [reflexivity|]. simpl.
+    rewrite (H c (reach_refl g c)). f_equal. apply flat_map_ext_in. intros b Hb. apply IH.
+    intros y Hy. apply H. eapply reach_step; eauto.
+  Qed.
+
+  (* acyclic graphs: paths do not repeat a class *)
+  Variable rk : Z -> nat.
+  Hypothesis rk_dec : forall c b, In b (g c) -> (rk b < rk c)%nat.
+
+  Lemma chain_rank p : forall c x y, chain c p x -> In y p -> (rk y < rk c)%nat.
+  Proof.
+    induction p as [|b p IH]; intros c x y H Hy; [destruct Hy|]. simpl in H. destruct H as [Hb H].
+    specialize (rk_dec _ _ Hb). destruct Hy as [Hy|Hy]; [subst; assumption|].
+    specialize (IH b x y H Hy). lia.
+  Qed.
+
+  Lemma chain_NoDup p : forall c x, chain c p x -> NoDup (c :: p).
+  Proof.
+    induction p as [|b p IH]; intros c x H.
+    - constructor; [intros []|constructor].
+    - constructor.
+      + intros Hin. pose proof (chain_rank _ _ _ _ H Hin). lia.
+      + simpl in H. destruct H as [_ H]. eapply IH; eauto.
+  Qed.
+End Chains.
+
+Lemma dedup_acc_In (l : list Z) : forall seen x,
+  In x (dedup_acc Z.eqb seen l) <-> In x l /\ ~ In x seen.
+Proof.
+  induction l as [|a l IH]; intros seen x; simpl; [tauto|].
+  destruct (memb Z.eqb a seen) eqn:E.
+  - apply memb_In in E. rewrite IH. split; [tauto|]. intros [[H|H] N]; [subst; tauto|tauto].
+  - apply memb_false_In in E. simpl. rewrite IH, in_app_iff. simpl.
+    destruct (Z.eq_dec a x) as [Ex|Nx]; [subst; tauto|]. split.
+    + intros [H|[H N]]; [congruence|]. split; [right; assumption|]. intros Hs. apply N. left. assumption.
+    + intros [[H|H] N]; [congruence|]. right. split; [assumption|]. intros [Hs|[Hs|[]]]; [tauto|congruence].
+Qed.
+
+Lemma zdedup_In l x : In x (zdedup l) <-> In x l.
+Proof. unfold zdedup. rewrite dedup_acc_In. simpl. tauto. Qed.
+
 (* ---------- the invariant ---------- *)
 
-(* local consistency of class c: its cached linearisation is the C3 merge of
-   the cached linearisations of its bases *)
+(* local consistency of class c: its cached linearisation is what the
+   metaclass computes from the cached linearisations of its bases (C3, or the
+   replacement when that is installed and C3 fails) *)
 Definition lc (st : state) (c : Z) (k : cls) : Prop :=
-  exists ms, map_opt (mro st) (c_bases k) = Some ms /\ linearize c ms (c_bases k) = Some (c_mro k).
+  linearize_cached st c (c_bases k) = Some (c_mro k).
 
 Definition LCat (st : state) (x : Z) : Prop := forall k, getc st x = Some k -> lc st x k.
 
@@ -155,38 +286,23 @@ Proof.
   - destruct (getc st c) as [k|]; [|discriminate]. intros H. inversion H. right. exists k. tauto.
 Qed.
 
+Lemma linearize_cached_cases st c bs l :
+  linearize_cached st c bs = Some l ->
+  exists ms, map_opt (mro st) bs = Some ms /\
+    (linearize c ms bs = Some l \/
+     (linearize c ms bs = None /\ flag st = true /\
+      l = zdedup (c :: all_bases (bases_fn st) (fuel_of st) c))).
+Proof.
+  unfold linearize_cached. destruct (map_opt (mro st) bs) as [ms|]; [|discriminate].
+  intros H. exists ms. split; [reflexivity|]. destruct (linearize c ms bs) as [l0|].
+  - left. exact H.
+  - right. destruct (flag st); [|discriminate]. inversion H. tauto.
+Qed.
+
 Lemma lc_base_mro st c k b : lc st c k -> In b (c_bases k) -> exists m, mro st b = Some m.
 Proof.
-  intros (ms & Hm & _) Hb. destruct (map_opt_Some _ _ _ Hm) as [M1 _].
-  destruct (M1 b Hb) as (m & E & _). exists m. assumption.
-Qed.
-
-(* the linearisation of a base is included in that of the class; the class heads it *)
-Lemma lc_shape st c k :
-  lc st c k -> exists l', c_mro k = c :: l' /\ NoDup l' /\
-    (forall b m x, In b (c_bases k) -> mro st b = Some m -> In x m -> In x l') /\
-    (forall b, In b (c_bases k) -> In b l').
-Proof.
-  intros (ms & Hm & Hl). destruct (C3_perm _ _ _ _ Hl) as (l' & E & ND & I).
-  exists l'. split; [assumption|]. split; [assumption|]. split.
-  - intros b m x Hb Eb Hx. apply I. right. exists m. split; [|assumption].
-    destruct (map_opt_Some _ _ _ Hm) as [M1 _]. destruct (M1 b Hb) as (m' & E' & Hm'). congruence.
-  - intros b Hb. apply I. left. assumption.
-Qed.
-
-(* from local consistency and any rank: the cache is the linearisation from scratch *)
-Lemma lc_mro_of st (rk : Z -> nat) :
-  (forall x, LCat st x) -> (forall x y, In y (bases_fn st x) -> (rk y < rk x)%nat) ->
-  forall F c l, mro st c = Some l -> (rk c < F)%nat -> mro_of (bases_fn st) false F c = Some l.
-Proof.
-  intros L Hrk. induction F as [|F IH]; intros c l M Hr; [lia|].
-  cbn [mro_of]. destruct (mro_Some_cases _ _ _ M) as [[E1 E2]|(k & G & E)].
-  - subst. reflexivity.
-  - subst l. rewrite (bases_fn_getc _ _ _ G). destruct (L c k G) as (ms & Hm & Hl).
-    rewrite (map_opt_ext _ (mro st) (c_bases k)).
-    + rewrite Hm, Hl. reflexivity.
-    + intros b Hb. destruct (lc_base_mro _ _ _ _ (L c k G) Hb) as (m & Eb). rewrite Eb. apply IH; [assumption|].
-      assert (rk b < rk c)%nat by (apply Hrk; rewrite (bases_fn_getc _ _ _ G); assumption). lia.
+  intros H Hb. destruct (linearize_cached_cases _ _ _ _ H) as (ms & Hm & _).
+  destruct (map_opt_Some _ _ _ Hm) as [M1 _]. destruct (M1 b Hb) as (m & E & _). exists m. assumption.
 Qed.
 
 Lemma zseq_In lo n x : In x (zseq lo n) <-> lo <= x < lo + Z.of_nat n.
@@ -222,41 +338,125 @@ Proof.
   destruct (lc_base_mro _ _ _ _ (L c k G) Hb) as (m & E). eapply mro_Some_valid; eauto.
 Qed.
 
+(* no path is longer than the number of classes *)
+Lemma chain_bound st (rk : Z -> nat) :
+  (forall x, LCat st x) -> (forall x y, In y (bases_fn st x) -> (rk y < rk x)%nat) ->
+  forall c p x, valid st c -> chain (bases_fn st) c p x -> (length p <= nclasses st)%nat.
+Proof.
+  intros L Hrk c p x V H.
+  pose proof (chain_NoDup _ rk Hrk p c x H) as ND.
+  assert (Len : (length (c :: p) <= length (zseq 0 (S (nclasses st))))%nat).
+  { apply NoDup_incl_length; [assumption|]. intros y [Hy|Hy]; apply valid_range.
+    - subst. assumption.
+    - apply (reach_valid st L c y); [|assumption]. eapply chain_In_reach; eauto. }
+  rewrite zseq_length in Len. simpl in Len. lia.
+Qed.
+
+(* every cached linearisation lists exactly what the class reaches *)
+Theorem GInv_MR st :
+  GInv st -> forall c l, mro st c = Some l -> forall x, In x l <-> reach (bases_fn st) c x.
+Proof.
+  intros [L _ _ (rk & Hrk)].
+  assert (H : forall N c l, (rk c < N)%nat -> mro st c = Some l -> forall x, In x l <-> reach (bases_fn st) c x).
+  { induction N as [|N IH]; intros c l Hr M x; [lia|].
+    destruct (mro_Some_cases _ _ _ M) as [[E1 E2]|(k & G & E)].
+    - subst. split.
+      + intros [Hx|[]]. subst. constructor.
+      + intros R. apply reach_from_root in R; [left; congruence|reflexivity].
+    - subst l. pose proof (bases_fn_getc _ _ _ G) as Bg.
+      assert (IHb : forall b m, In b (c_bases k) -> mro st b = Some m -> forall y, In y m <-> reach (bases_fn st) b y).
+      { intros b m Hb Em. apply IH; [|assumption]. assert (rk b < rk c)%nat by (apply Hrk; rewrite Bg; assumption). lia. }
+      destruct (linearize_cached_cases _ _ _ _ (L c k G)) as (ms & Hm & [Hl|(Hl & Ff & El)]);
+        destruct (map_opt_Some _ _ _ Hm) as [M1 M2].
+      + destruct (C3_perm _ _ _ _ Hl) as (l' & E & _ & I). rewrite E. split.
+        * intros [Hx|Hx]; [subst; constructor|]. apply I in Hx. destruct Hx as [Hx|(m & Hm' & Hx)].
+          -- eapply reach_step; [rewrite Bg; exact Hx|constructor].
+          -- destruct (M2 m Hm') as (b & Hb & Eb). eapply reach_step; [rewrite Bg; exact Hb|].
+             apply (IHb b m Hb Eb). assumption.
+        * intros R. inversion R as [|c0 b x0 Hb Hbx]; subst; [left; reflexivity|]. right. apply I.
+          rewrite Bg in Hb. destruct (M1 b Hb) as (m & Eb & Hm'). right. exists m. split; [assumption|].
+          apply (IHb b m Hb Eb). assumption.
+      + rewrite El, zdedup_In. split.
+        * intros [Hx|Hx]; [subst; constructor|]. destruct (all_bases_sound _ _ _ _ Hx) as (b & Hb & R).
+          eapply reach_step; eauto.
+        * intros R. inversion R as [|c0 b x0 Hb Hbx]; subst; [left; reflexivity|]. right.
+          destruct (reach_chain _ _ _ Hbx) as (p & Hp).
+          assert (Hc : chain (bases_fn st) c (b :: p) x) by (split; assumption).
+          apply (chain_all_bases _ _ c (b :: p) x Hc); [discriminate|].
+          assert (V : valid st c) by (right; congruence).
+          pose proof (chain_bound st rk L Hrk c (b :: p) x V Hc). unfold fuel_of. lia. }
+  intros c l M x. apply (H (S (rk c)) c l); [lia|assumption].
+Qed.
+
+(* ---------- without the replacement: the cache is the linearisation from scratch ---------- *)
+
+Lemma lc_noflag st c k :
+  flag st = false -> lc st c k ->
+  exists ms, map_opt (mro st) (c_bases k) = Some ms /\ linearize c ms (c_bases k) = Some (c_mro k).
+Proof.
+  intros F H. destruct (linearize_cached_cases _ _ _ _ H) as (ms & Hm & [Hl|(_ & Ff & _)]); [|congruence].
+  exists ms. tauto.
+Qed.
+
+Lemma lc_shape st c k :
+  flag st = false -> lc st c k -> exists l', c_mro k = c :: l' /\ NoDup l' /\
+    (forall b m x, In b (c_bases k) -> mro st b = Some m -> In x m -> In x l').
+Proof.
+  intros F H. destruct (lc_noflag _ _ _ F H) as (ms & Hm & Hl).
+  destruct (C3_perm _ _ _ _ Hl) as (l' & E & ND & I).
+  exists l'. split; [assumption|]. split; [assumption|].
+  intros b m x Hb Eb Hx. apply I. right. exists m. split; [|assumption].
+  destruct (map_opt_Some _ _ _ Hm) as [M1 _]. destruct (M1 b Hb) as (m' & E' & Hm'). congruence.
+Qed.
+
+Lemma lc_mro_of st (rk : Z -> nat) :
+  flag st = false -> (forall x, LCat st x) -> (forall x y, In y (bases_fn st x) -> (rk y < rk x)%nat) ->
+  forall F c l, mro st c = Some l -> (rk c < F)%nat -> mro_of (bases_fn st) false F c = Some l.
+Proof.
+  intros Ff L Hrk. induction F as [|F IH]; intros c l M Hr; [lia|].
+  cbn [mro_of]. destruct (mro_Some_cases _ _ _ M) as [[E1 E2]|(k & G & E)].
+  - subst. reflexivity.
+  - subst l. rewrite (bases_fn_getc _ _ _ G). destruct (lc_noflag _ _ _ Ff (L c k G)) as (ms & Hm & Hl).
+    rewrite (map_opt_ext _ (mro st) (c_bases k)).
+    + rewrite Hm, Hl. reflexivity.
+    + intros b Hb. destruct (lc_base_mro _ _ _ _ (L c k G) Hb) as (m & Eb). rewrite Eb. apply IH; [assumption|].
+      assert (rk b < rk c)%nat by (apply Hrk; rewrite (bases_fn_getc _ _ _ G); assumption). lia.
+Qed.
+
 Definition lrk (st : state) (x : Z) : nat :=
   match mro st x with Some l => length l | None => O end.
 
-(* what the invariant gives about every cached linearisation *)
 Lemma GInv_cache_facts st c l :
-  GInv st -> mro st c = Some l ->
-  NoDup l /\ (forall x, In x l <-> reach (bases_fn st) c x) /\ (length l <= S (nclasses st))%nat.
+  GInv st -> flag st = false -> mro st c = Some l ->
+  NoDup l /\ (length l <= S (nclasses st))%nat.
 Proof.
-  intros [L _ _ (rk & Hrk)] M.
-  pose proof (lc_mro_of st rk L Hrk (S (rk c)) c l M (Nat.lt_succ_diag_r _)) as Sp.
+  intros GI Ff M. pose proof GI as [L _ _ (rk & Hrk)].
+  pose proof (lc_mro_of st rk Ff L Hrk (S (rk c)) c l M (Nat.lt_succ_diag_r _)) as Sp.
   pose proof (mro_of_NoDup _ rk Hrk _ _ _ Sp) as ND.
-  pose proof (mro_of_closure _ _ _ _ Sp) as Cl.
-  split; [assumption|]. split; [assumption|].
+  split; [assumption|].
   rewrite <- (zseq_length 0 (S (nclasses st))). apply NoDup_incl_length; [assumption|].
-  intros x Hx. apply valid_range. apply (reach_valid st L c x); [apply Cl; assumption|].
+  intros x Hx. apply valid_range. apply (reach_valid st L c x); [apply (GInv_MR st GI c l M); assumption|].
   eapply mro_Some_valid; eauto.
 Qed.
 
-Lemma lrk_decreases st : GInv st -> forall x y, In y (bases_fn st x) -> (lrk st y < lrk st x)%nat.
+Lemma lrk_decreases st :
+  GInv st -> flag st = false -> forall x y, In y (bases_fn st x) -> (lrk st y < lrk st x)%nat.
 Proof.
-  intros GI x y Hy. unfold bases_fn in Hy. destruct (getc st x) as [k|] eqn:G; [|destruct Hy].
+  intros GI Ff x y Hy. unfold bases_fn in Hy. destruct (getc st x) as [k|] eqn:G; [|destruct Hy].
   pose proof (g_lc _ GI x k G) as Lx. destruct (lc_base_mro _ _ _ _ Lx Hy) as (m & Em).
-  destruct (lc_shape _ _ _ Lx) as (l' & E & ND' & Sub & _).
-  destruct (GInv_cache_facts _ _ _ GI Em) as (NDm & _ & _).
+  destruct (lc_shape _ _ _ Ff Lx) as (l' & E & ND' & Sub).
+  destruct (GInv_cache_facts _ _ _ GI Ff Em) as (NDm & _).
   unfold lrk. rewrite Em, (mro_getc _ _ _ G), E. simpl.
   assert (length m <= length l')%nat; [|lia].
   apply NoDup_incl_length; [assumption|]. intros z Hz. eapply Sub; eauto.
 Qed.
 
-(* the premise of the _partial theorems of Props/C12.v *)
+(* the premise of the state-level _partial theorems of Props/C12.v *)
 Theorem GInv_consistent st : GInv st -> flag st = false -> consistent st.
 Proof.
   intros GI F c l M. unfold mro_spec. rewrite F.
-  apply (lc_mro_of st (lrk st) (g_lc _ GI) (lrk_decreases _ GI)); [assumption|].
-  destruct (GInv_cache_facts _ _ _ GI M) as (_ & _ & Len).
+  apply (lc_mro_of st (lrk st) F (g_lc _ GI) (lrk_decreases _ GI F)); [assumption|].
+  destruct (GInv_cache_facts _ _ _ GI F M) as (_ & Len).
   unfold lrk, fuel_of. rewrite M. lia.
 Qed.
 
@@ -271,13 +471,29 @@ Proof.
   - exists (fun _ => O). intros x y H. unfold bases_fn in H. rewrite N in H. destruct H.
 Qed.
 
-(* the invariant only looks at the Python side of the classes *)
+(* ---------- the invariant only looks at the Python side of the classes ---------- *)
+
+(* what linearize_cached depends on *)
+Lemma linearize_cached_ext st st' c bs :
+  (forall b, In b bs -> mro st' b = mro st b) ->
+  (forall y, reach (bases_fn st) c y -> bases_fn st' y = bases_fn st y) ->
+  nclasses st' = nclasses st -> flag st' = flag st ->
+  linearize_cached st' c bs = linearize_cached st c bs.
+Proof.
+  intros Hm Hb Hn Hf. unfold linearize_cached. rewrite (map_opt_ext _ (mro st) bs Hm).
+  destruct (map_opt (mro st) bs) as [ms|]; [|reflexivity].
+  destruct (linearize c ms bs); [reflexivity|]. rewrite Hf. unfold fuel_of. rewrite Hn.
+  rewrite (all_bases_ext_reach (bases_fn st) (bases_fn st') _ c Hb). reflexivity.
+Qed.
+
 Lemma lc_crel st st' x k k' :
   crel same_lin st st' -> same_lin k k' -> lc st x k -> lc st' x k'.
 Proof.
-  intros C (E1 & E2) (ms & Hm & Hl). exists ms. rewrite E1, E2. split; [|assumption].
-  rewrite <- Hm. apply map_opt_ext. intros b _.
-  apply (mro_crel same_lin); [|assumption]. intros a b0 [_ H]. exact H.
+  intros C (E1 & E2) H. unfold lc in *. rewrite E1, E2, <- H. apply linearize_cached_ext.
+  - intros b _. apply (mro_crel same_lin); [|assumption]. intros a b0 [_ Hx]. exact Hx.
+  - intros y _. apply (bases_fn_crel same_lin); [|assumption]. intros a b0 [Hx _]. exact Hx.
+  - destruct C as (_ & _ & Hn). exact Hn.
+  - destruct C as (_ & Hf & _). exact Hf.
 Qed.
 
 Lemma LCat_crel st st' x : crel same_lin st st' -> LCat st x -> LCat st' x.
@@ -325,14 +541,6 @@ Qed.
 Lemma mro_setc_other st c k' b : 0 < c -> c <> b -> mro (setc st c k') b = mro st b.
 Proof. intros P N. unfold mro. rewrite getc_setc_other by assumption. reflexivity. Qed.
 
-Lemma linearize_cached_noflag st c bs l :
-  flag st = false -> linearize_cached st c bs = Some l ->
-  exists ms, map_opt (mro st) bs = Some ms /\ linearize c ms bs = Some l.
-Proof.
-  intros F H. unfold linearize_cached in H. destruct (map_opt (mro st) bs) as [ms|]; [|discriminate].
-  exists ms. split; [reflexivity|]. destruct (linearize c ms bs); [assumption|]. rewrite F in H. discriminate.
-Qed.
-
 Lemma fold_obind_None {A} (h : state -> A -> option state) ds :
   fold_left (fun acc d => obind acc (fun s => h s d)) ds None = None.
 Proof. induction ds as [|d r IH]; simpl; [reflexivity|assumption]. Qed.
@@ -342,6 +550,26 @@ Definition irrefl (st : state) : Prop := forall x k, getc st x = Some k -> ~ In 
 Lemma irrefl_crel st st' : crel same_graph st st' -> irrefl st -> irrefl st'.
 Proof.
   intros C H x k' G'. destruct (crel_getc _ _ _ _ _ C G') as (k & G & (E1 & _)). rewrite E1. eapply H; eauto.
+Qed.
+
+(* x is c or a registered subclass of ... of c: what the traversal from c visits *)
+Inductive subreach (st : state) : Z -> Z -> Prop :=
+| sr_refl c : subreach st c c
+| sr_step c k d x : getc st c = Some k -> In d (c_subs k) -> subreach st d x -> subreach st c x.
+
+Lemma subreach_crel st st' c x : crel same_graph st st' -> subreach st c x -> subreach st' c x.
+Proof.
+  intros C H. induction H as [c|c k d x G Hd _ IH]; [constructor|].
+  destruct (crel_getc_fwd _ _ _ _ _ C G) as (k' & G' & (_ & E2)).
+  eapply sr_step; [exact G'|rewrite E2; exact Hd|exact IH].
+Qed.
+
+Lemma subreach_snoc st c b kb x :
+  subreach st c b -> getc st b = Some kb -> In x (c_subs kb) -> subreach st c x.
+Proof.
+  intros H. induction H as [c|c k d b G Hd _ IH]; intros Gb Hx.
+  - eapply sr_step; [exact Gb|exact Hx|constructor].
+  - eapply sr_step; [exact G|exact Hd|]. apply IH; assumption.
 Qed.
 
 Section Hier.
@@ -369,70 +597,76 @@ Section Hier.
     destruct (crel_getc_fwd _ _ _ _ _ C Gx) as (kx' & Gx' & (_ & F2)). exists kx'. rewrite F2. tauto.
   Qed.
 
+  (* a successful traversal from d: only caches change; every class it visits
+     ends up locally consistent, and so does every class that was *)
   Definition hier_post (h : state -> Z -> option state) : Prop :=
-    forall s d s', flag s = false -> Dclosed s -> Dcomplete s -> irrefl s -> D d -> h s d = Some s' ->
-      crel same_graph s s' /\ forall x, (x = d \/ LCat s x) -> LCat s' x.
+    forall s d s', Dclosed s -> Dcomplete s -> irrefl s -> D d -> h s d = Some s' ->
+      crel same_graph s s' /\ forall x, (subreach s d x \/ LCat s x) -> LCat s' x.
 
   Lemma fold_lc (h : state -> Z -> option state) :
     hier_post h ->
-    forall ds s0 s', (forall d, In d ds -> D d) ->
-      flag s0 = false -> Dclosed s0 -> Dcomplete s0 -> irrefl s0 ->
+    forall ds s0 s', (forall d, In d ds -> D d) -> Dclosed s0 -> Dcomplete s0 -> irrefl s0 ->
       fold_left (fun acc d => obind acc (fun s => h s d)) ds (Some s0) = Some s' ->
-      crel same_graph s0 s' /\ forall x, (In x ds \/ LCat s0 x) -> LCat s' x.
+      crel same_graph s0 s' /\
+      forall x, ((exists d, In d ds /\ subreach s0 d x) \/ LCat s0 x) -> LCat s' x.
   Proof.
-    intros Hh. induction ds as [|d r IH]; intros s0 s' HD F Cl Co Ir H; simpl in H.
-    - inversion H; subst. split; [apply crel_refl; apply same_graph_refl|]. intros x [[]|L]. assumption.
+    intros Hh. induction ds as [|d r IH]; intros s0 s' HD Cl Co Ir H; simpl in H.
+    - inversion H; subst. split; [apply crel_refl; apply same_graph_refl|].
+      intros x [(d & [] & _)|L]. assumption.
     - destruct (h s0 d) as [s1|] eqn:E; [|rewrite fold_obind_None in H; discriminate].
-      destruct (Hh s0 d s1 F Cl Co Ir (HD d (or_introl eq_refl)) E) as [C1 P1].
-      assert (F1 : flag s1 = false) by (destruct C1 as (_ & Ff & _); congruence).
-      destruct (IH s1 s' (fun x Hx => HD x (or_intror Hx)) F1
+      destruct (Hh s0 d s1 Cl Co Ir (HD d (or_introl eq_refl)) E) as [C1 P1].
+      destruct (IH s1 s' (fun x Hx => HD x (or_intror Hx))
                    (Dclosed_crel _ _ C1 Cl) (Dcomplete_crel _ _ C1 Co) (irrefl_crel _ _ C1 Ir) H) as [C2 P2].
       split; [eapply crel_trans; [exact same_graph_trans|exact C1|exact C2]|].
-      intros x [[Hx|Hx]|L].
-      + apply P2. right. apply P1. left. congruence.
-      + apply P2. left. assumption.
+      intros x [(d' & [Ed|Hd] & Sr)|L].
+      + subst d'. apply P2. right. apply P1. left. exact Sr.
+      + apply P2. left. exists d'. split; [exact Hd|]. eapply subreach_crel; eauto.
       + apply P2. right. apply P1. right. assumption.
   Qed.
 
-  Lemma LCat_setc_mro st c k l x :
-    getc st c = Some k -> x <> c ->
-    (forall kx, getc st x = Some kx -> ~ In c (c_bases kx)) ->
-    LCat st x -> LCat (setc st c (with_mro l k)) x.
+  Lemma lcached_setc_mro st c k l x bs :
+    getc st c = Some k -> ~ In c bs ->
+    linearize_cached (setc st c (with_mro l k)) x bs = linearize_cached st x bs.
   Proof.
-    intros G N NB L kx Gx. pose proof (getc_pos _ _ _ G) as P.
-    rewrite getc_setc_other in Gx by (try assumption; congruence).
-    destruct (L kx Gx) as (ms & Hm & Hl). exists ms. split; [|assumption].
-    rewrite <- Hm. apply map_opt_ext. intros b Hb. apply mro_setc_other; [assumption|].
-    intros E. subst b. exact (NB kx Gx Hb).
+    intros G NB. pose proof (getc_pos _ _ _ G) as P.
+    assert (C0 : crel same_graph st (setc st c (with_mro l k))).
+    { apply (crel_setc same_graph _ _ k); [exact same_graph_refl|assumption|split; reflexivity]. }
+    apply linearize_cached_ext.
+    - intros b Hb. apply mro_setc_other; [assumption|]. intros E. subst b. exact (NB Hb).
+    - intros y _. apply (bases_fn_crel same_graph); [|assumption]. intros a b0 [Hx _]. exact Hx.
+    - apply nclasses_setc.
+    - reflexivity.
   Qed.
 
   Lemma hier_lc fuel : hier_post (hier fuel).
   Proof.
-    induction fuel as [|f IH]; intros st c st' F Cl Co Ir Dc H; [discriminate|].
+    induction fuel as [|f IH]; intros st c st' Cl Co Ir Dc H; [discriminate|].
     simpl in H. destruct (getc st c) as [k|] eqn:G; [|discriminate].
     destruct (linearize_cached st c (c_bases k)) as [l|] eqn:E; [|discriminate].
-    destruct (linearize_cached_noflag _ _ _ _ F E) as (ms & Hm & Hl).
     pose proof (getc_pos _ _ _ G) as P.
     set (st0 := setc st c (with_mro l k)) in *.
     assert (C0 : crel same_graph st st0).
     { apply (crel_setc same_graph _ _ k); [exact same_graph_refl|assumption|split; reflexivity]. }
     assert (L0 : LCat st0 c).
     { intros k0 G0. unfold st0 in G0. rewrite (getc_setc_same _ _ _ _ G) in G0. inversion G0; subst k0.
-      exists ms. simpl. split; [|assumption]. rewrite <- Hm. apply map_opt_ext. intros b Hb.
-      apply mro_setc_other; [assumption|]. intros Eb. subst b. exact (Ir c k G Hb). }
-    assert (F0 : flag st0 = false) by exact F.
-    destruct (fold_lc (hier f) IH (c_subs k) st0 st' (fun d Hd => Cl c k d G Dc Hd) F0
+      unfold lc, st0. simpl c_bases. simpl c_mro. rewrite (lcached_setc_mro _ _ _ _ _ _ G (Ir c k G)). exact E. }
+    destruct (fold_lc (hier f) IH (c_subs k) st0 st' (fun d Hd => Cl c k d G Dc Hd)
                 (Dclosed_crel _ _ C0 Cl) (Dcomplete_crel _ _ C0 Co) (irrefl_crel _ _ C0 Ir) H) as [C1 P1].
     split; [eapply crel_trans; [exact same_graph_trans|exact C0|exact C1]|].
-    intros x [Ex|L].
-    - subst x. apply P1. right. assumption.
-    - destruct (Z.eq_dec x c) as [Ex|Nx]; [subst x; apply P1; right; assumption|].
+    intros x [Sr|L].
+    - inversion Sr as [|c0 k0 d x0 G0 Hd Sd]; subst.
+      + apply P1. right. exact L0.
+      + rewrite G in G0. inversion G0; subst k0. apply P1. left. exists d. split; [exact Hd|].
+        eapply subreach_crel; eauto.
+    - destruct (Z.eq_dec x c) as [Ex|Nx]; [subst x; apply P1; right; exact L0|].
       destruct (getc st x) as [kx|] eqn:Gx.
       + destruct (in_dec Z.eq_dec c (c_bases kx)) as [Hin|Hnin].
         * destruct (Co x kx c Gx Hin Dc) as (kc & Gc & Hs). rewrite G in Gc. inversion Gc; subst kc.
-          apply P1. left. assumption.
-        * apply P1. right. apply (LCat_setc_mro st c k l x G Nx); [|assumption].
-          intros kx0 Gx0. rewrite Gx in Gx0. inversion Gx0; subst. assumption.
+          apply P1. left. exists x. split; [exact Hs|constructor].
+        * apply P1. right. intros kx0 Gx0. unfold st0 in Gx0.
+          rewrite getc_setc_other in Gx0 by (try assumption; congruence).
+          rewrite Gx in Gx0. inversion Gx0; subst kx0.
+          unfold lc, st0. rewrite (lcached_setc_mro _ _ _ _ _ _ G Hnin). exact (L kx Gx).
       + intros k' G'. destruct (crel_getc _ _ _ _ _ (crel_trans _ _ _ _ same_graph_trans C0 C1) G') as (k0 & G0 & _).
         congruence.
   Qed.
@@ -561,19 +795,30 @@ Proof.
   rewrite <- E. symmetry. apply existsb_exists. exists b. split; [assumption|exact Ec].
 Qed.
 
-Lemma cache_in_self st c k : LCat st c -> getc st c = Some k -> cache_in st c c = true.
+(* with the invariant, the check is about the graph *)
+Lemma cache_in_reach st c x :
+  GInv st -> valid st x -> (cache_in st c x = true <-> reach (bases_fn st) x c).
 Proof.
-  intros L G. destruct (lc_shape _ _ _ (L k G)) as (l' & E & _).
-  unfold cache_in. rewrite (mro_getc _ _ _ G), E. apply zmem_In. left. reflexivity.
+  intros GI V. unfold cache_in.
+  assert (M : exists l, mro st x = Some l).
+  { destruct V as [E|N]; [subst; exists [0]; reflexivity|].
+    destruct (getc st x) as [k|] eqn:G; [|congruence]. exists (c_mro k). apply mro_getc. exact G. }
+  destruct M as (l & M). rewrite M, zmem_In. apply (GInv_MR st GI x l M).
 Qed.
+
+Lemma cache_in_valid st c x : cache_in st c x = true -> valid st x.
+Proof. unfold cache_in. destruct (mro st x) as [l|] eqn:M; [|discriminate]. intros _. eapply mro_Some_valid; eauto. Qed.
+
+Lemma cache_in_self st c k : GInv st -> getc st c = Some k -> cache_in st c c = true.
+Proof. intros GI G. apply cache_in_reach; [assumption|right; congruence|constructor]. Qed.
 
 (* descendants of c stay descendants along a bases edge *)
 Lemma cache_in_up st c d kd x :
-  LCat st d -> getc st d = Some kd -> In x (c_bases kd) -> cache_in st c x = true -> cache_in st c d = true.
+  GInv st -> getc st d = Some kd -> In x (c_bases kd) -> cache_in st c x = true -> cache_in st c d = true.
 Proof.
-  intros L G Hx Hc. destruct (lc_shape _ _ _ (L kd G)) as (l' & E & _ & Sub & _).
-  unfold cache_in in *. destruct (mro st x) as [m|] eqn:Em; [|discriminate].
-  rewrite (mro_getc _ _ _ G), E. apply zmem_In. right. apply zmem_In in Hc. eapply Sub; eauto.
+  intros GI G Hx Hc. apply cache_in_reach; [assumption|right; congruence|].
+  eapply reach_step; [rewrite (bases_fn_getc _ _ _ G); exact Hx|].
+  apply (cache_in_reach st c x GI (cache_in_valid _ _ _ Hc)). exact Hc.
 Qed.
 
 Lemma cache_in_zero st c : 0 < c -> cache_in st c 0 = false.
@@ -593,17 +838,29 @@ Lemma rebase_ranked st c k bs :
   exists rk' : Z -> nat,
     forall x y, In y (if Z.eq_dec x c then bs else bases_fn st x) -> (rk' y < rk' x)%nat.
 Proof.
-  intros [L _ _ (rk & Hrk)] G Hchk.
+  intros GI G Hchk. pose proof GI as [L _ _ (rk & Hrk)].
   set (K := S (list_max (map rk bs))).
   exists (fun x => if cache_in st c x then (rk x + K)%nat else rk x).
   intros x y Hy. destruct (Z.eq_dec x c) as [E|N].
-  - subst x. rewrite (cache_in_self _ _ _ (L c) G), (Hchk y Hy).
+  - subst x. rewrite (cache_in_self _ _ _ GI G), (Hchk y Hy).
     assert (rk y <= list_max (map rk bs))%nat by (apply list_max_In; apply in_map; assumption).
     unfold K. lia.
   - pose proof (Hrk x y Hy) as Lt. unfold bases_fn in Hy. destruct (getc st x) as [kx|] eqn:Gx; [|destruct Hy].
     destruct (cache_in st c y) eqn:Ey.
-    + rewrite (cache_in_up _ _ _ _ _ (L x) Gx Hy Ey). lia.
+    + rewrite (cache_in_up _ _ _ _ _ GI Gx Hy Ey). lia.
     + destruct (cache_in st c x); lia.
+Qed.
+
+(* what reaches c is visited by the traversal from c *)
+Lemma reach_subreach st c :
+  subs_complete st -> 0 < c -> forall x, reach (bases_fn st) x c -> subreach st c x.
+Proof.
+  intros Co P x H. induction H as [c|x b c Hb Hr IH]; [constructor|].
+  unfold bases_fn in Hb. destruct (getc st x) as [kx|] eqn:Gx; [|destruct Hb].
+  assert (N0 : b <> 0).
+  { intros E0. subst b. apply reach_from_root in Hr; [lia|reflexivity]. }
+  destruct (Co x kx b Gx Hb N0) as (kb & Gb & Hx).
+  eapply subreach_snoc; [apply IH; assumption|exact Gb|exact Hx].
 Qed.
 
 Lemma crel_flag (R : cls -> cls -> Prop) st st' : crel R st st' -> flag st' = flag st.
@@ -618,11 +875,21 @@ Lemma same_lin_bases a b : same_lin a b -> c_bases b = c_bases a.
 Proof. intros [H _]. exact H. Qed.
 
 (* a successful assignment keeps the invariant *)
-Theorem assign_GInv st c bs st' :
-  GInv st -> flag st = false -> assign st c bs = Some st' ->
-  GInv st' /\ flag st' = false /\ nclasses st' = nclasses st.
+Lemma subreach_setc_bases st c k bs c0 x :
+  getc st c = Some k -> subreach st c0 x -> subreach (setc st c (with_bases bs k)) c0 x.
 Proof.
-  intros GI F A. destruct (assign_unfold _ _ _ _ A) as (k & st2 & G & Hchk & Hh & E).
+  intros G H. pose proof (getc_pos _ _ _ G) as P. induction H as [c0|c0 k0 d x G0 Hd _ IH]; [constructor|].
+  destruct (Z.eq_dec c c0) as [E|N].
+  - subst c0. rewrite G in G0. inversion G0; subst k0.
+    eapply sr_step; [apply (getc_setc_same _ _ _ _ G)|exact Hd|exact IH].
+  - eapply sr_step; [rewrite getc_setc_other by assumption; exact G0|exact Hd|exact IH].
+Qed.
+
+Theorem assign_GInv st c bs st' :
+  GInv st -> assign st c bs = Some st' ->
+  GInv st' /\ flag st' = flag st /\ nclasses st' = nclasses st.
+Proof.
+  intros GI A. destruct (assign_unfold _ _ _ _ A) as (k & st2 & G & Hchk & Hh & E).
   pose proof GI as [L Co So Rk]. pose proof (getc_pos _ _ _ G) as P.
   set (st1 := setc st c (with_bases bs k)) in *.
   assert (G1 : forall x, getc st1 x = if Z.eq_dec x c then Some (with_bases bs k) else getc st x).
@@ -632,7 +899,7 @@ Proof.
   assert (M1 : forall x, mro st1 x = mro st x).
   { intros x. apply (mro_setc _ _ k); [assumption|reflexivity]. }
   set (D := fun x => cache_in st c x = true).
-  assert (Dc : D c) by (exact (cache_in_self _ _ _ (L c) G)).
+  assert (Dc : D c) by (exact (cache_in_self _ _ _ GI G)).
   assert (S1 : forall x kx, getc st1 x = Some kx ->
                exists kx0, getc st x = Some kx0 /\ c_subs kx0 = c_subs kx).
   { intros x kx Gx. rewrite G1 in Gx. destruct (Z.eq_dec x c) as [Ex|Nx].
@@ -640,7 +907,7 @@ Proof.
     - exists kx. split; [assumption|reflexivity]. }
   assert (Cl1 : Dclosed D st1).
   { intros x kx d Gx Dx Hd. destruct (S1 _ _ Gx) as (kx0 & Gx0 & Es). rewrite <- Es in Hd.
-    destruct (So x kx0 d Gx0 Hd) as (kd & Gd & Hx). exact (cache_in_up _ _ _ _ _ (L d) Gd Hx Dx). }
+    destruct (So x kx0 d Gx0 Hd) as (kd & Gd & Hx). exact (cache_in_up _ _ _ _ _ GI Gd Hx Dx). }
   assert (Co1 : Dcomplete D st1).
   { intros y ky x Gy Hx Dx. rewrite G1 in Gy. destruct (Z.eq_dec y c) as [Ey|Ny].
     - inversion Gy; subst ky. simpl in Hx. unfold D in Dx. rewrite (Hchk x Hx) in Dx. discriminate.
@@ -655,13 +922,19 @@ Proof.
   assert (Ir1 : irrefl st1).
   { intros x kx Gx Hin. assert (H : In x (bases_fn st1 x)) by (unfold bases_fn; rewrite Gx; assumption).
     rewrite B1 in H. specialize (Hrk' x x H). lia. }
-  assert (F1 : flag st1 = false) by exact F.
-  destruct (hier_lc D (fuel_of st) st1 c st2 F1 Cl1 Co1 Ir1 Dc Hh) as [C12 P12].
+  destruct (hier_lc D (fuel_of st) st1 c st2 Cl1 Co1 Ir1 Dc Hh) as [C12 P12].
   assert (L2 : forall x, LCat st2 x).
-  { intros x. apply P12. destruct (Z.eq_dec x c) as [Ex|Nx]; [left; assumption|right].
-    intros kx Gx. rewrite G1 in Gx. destruct (Z.eq_dec x c); [contradiction|].
-    destruct (L x kx Gx) as (ms & Hm & Hl). exists ms. split; [|assumption].
-    rewrite <- Hm. apply map_opt_ext. intros b _. apply M1. }
+  { intros x. apply P12. destruct (cache_in st c x) eqn:Dx.
+    - left. apply subreach_setc_bases; [assumption|]. apply (reach_subreach st c Co P).
+      apply (cache_in_reach st c x GI (cache_in_valid _ _ _ Dx)). exact Dx.
+    - right. intros kx Gx. rewrite G1 in Gx. destruct (Z.eq_dec x c) as [Ex|Nx].
+      + subst x. unfold D in Dc. congruence.
+      + unfold lc. rewrite <- (L x kx Gx). apply linearize_cached_ext.
+        * intros b _. apply M1.
+        * intros y Hy. rewrite B1. destruct (Z.eq_dec y c) as [Ey|Ny]; [|reflexivity]. subst y.
+          apply (cache_in_reach st c x GI) in Hy; [congruence|right; congruence].
+        * apply nclasses_setc.
+        * reflexivity. }
   destruct (remove_sub_spec c (c_bases k) st2) as [C23 S23].
   set (st3 := remove_sub c (c_bases k) st2) in *.
   destruct (add_sub_spec c bs st3) as [C34 S34]. rewrite <- E in C34, S34.
@@ -718,55 +991,57 @@ Proof.
       * subst d. assert (Gc1 : getc st1 c = Some (with_bases bs k)) by (rewrite G1; destruct (Z.eq_dec c c); [reflexivity|contradiction]).
         destruct (FW _ _ Gc1) as (kc' & Gc' & Eb & _). exists kc'. split; [assumption|]. rewrite Eb. exact Hxb.
     + exists rk'. intros x y Hy. rewrite B4, B1 in Hy. apply Hrk'. assumption.
-  - rewrite (crel_flag _ _ _ C34), (crel_flag _ _ _ C23), (crel_flag _ _ _ C12). exact F.
+  - rewrite (crel_flag _ _ _ C34), (crel_flag _ _ _ C23), (crel_flag _ _ _ C12). reflexivity.
   - rewrite (crel_nclasses _ _ _ C34), (crel_nclasses _ _ _ C23), (crel_nclasses _ _ _ C12). apply nclasses_setc.
 Qed.
 
-(* ---------- the flag ---------- *)
+(* ---------- _update_supertypes ---------- *)
 
-Lemma fold_hier_flag (h : state -> Z -> option state) :
-  (forall s x s', h s x = Some s' -> flag s' = flag s) ->
-  forall subs s0 s', fold_left (fun acc d => obind acc (fun s => h s d)) subs (Some s0) = Some s' -> flag s' = flag s0.
+Lemma assign_flag st c bs st' : GInv st -> assign st c bs = Some st' -> flag st' = flag st.
+Proof. intros GI A. destruct (assign_GInv _ _ _ _ GI A) as (_ & H & _). exact H. Qed.
+
+(* installing the replacement: every cache was a C3 result or already a replacement *)
+Lemma GInv_set_flag st : GInv st -> GInv (set_flag st).
 Proof.
-  intros Hh. induction subs as [|d r IH]; intros s0 s' H; simpl in H.
-  - inversion H; subst. reflexivity.
-  - destruct (h s0 d) as [s1|] eqn:E; [|rewrite fold_obind_None in H; discriminate].
-    rewrite (IH _ _ H). eapply Hh; eauto.
+  intros [L Co So Rk]. constructor.
+  - intros x k G. change (getc st x = Some k) in G. specialize (L x k G). unfold lc, linearize_cached in *.
+    change (mro (set_flag st)) with (mro st). change (bases_fn (set_flag st)) with (bases_fn st).
+    change (fuel_of (set_flag st)) with (fuel_of st). change (flag (set_flag st)) with true.
+    destruct (map_opt (mro st) (c_bases k)) as [ms|]; [|discriminate].
+    destruct (linearize x ms (c_bases k)); [exact L|]. destruct (flag st); [exact L|discriminate].
+  - exact Co.
+  - exact So.
+  - exact Rk.
 Qed.
 
-Lemma hier_flag fuel : forall st x st', hier fuel st x = Some st' -> flag st' = flag st.
-Proof.
-  induction fuel as [|f IH]; intros st x st' H; [discriminate|]. simpl in H.
-  destruct (getc st x) as [k|]; [|discriminate].
-  destruct (linearize_cached st x (c_bases k)) as [l|]; [|discriminate].
-  rewrite (fold_hier_flag (hier f) IH _ _ _ H). reflexivity.
-Qed.
-
-Lemma assign_flag st c bs st' : assign st c bs = Some st' -> flag st' = flag st.
-Proof.
-  intros A. destruct (assign_unfold _ _ _ _ A) as (k & st2 & G & _ & Hh & E). subst st'.
-  destruct (add_sub_spec c bs (remove_sub c (c_bases k) st2)) as [C2 _].
-  destruct (remove_sub_spec c (c_bases k) st2) as [C1 _].
-  rewrite (crel_flag _ _ _ C2), (crel_flag _ _ _ C1), (hier_flag _ _ _ _ Hh). reflexivity.
-Qed.
-
-(* _update_supertypes: when the replacement is not installed afterwards, it was
-   not installed before, one of the two C3 attempts succeeded, and the
-   invariant is kept *)
+(* whatever the outcome: one of the three attempts went through, or nothing
+   but the flag changed *)
 Theorem update_supertypes_GInv st c st' r :
-  (flag st = false -> GInv st) -> update_supertypes st c = (st', r) -> flag st' = false ->
-  GInv st' /\ flag st = false /\ r = None.
+  GInv st -> update_supertypes st c = (st', r) -> GInv st'.
 Proof.
-  intros HI U F'. unfold update_supertypes in U.
+  intros GI U. unfold update_supertypes in U.
   destruct (assign st c (compute_supertypes (supers_fn st c))) as [s1|] eqn:A1.
-  - inversion U; subst. pose proof (assign_flag _ _ _ _ A1) as Ff. rewrite F' in Ff. symmetry in Ff.
-    destruct (assign_GInv _ _ _ _ (HI Ff) Ff A1) as (H1 & _ & _). tauto.
+  - inversion U; subst. destruct (assign_GInv _ _ _ _ GI A1) as (H & _). exact H.
   - match type of U with context [assign st c ?bs2] => destruct (assign st c bs2) as [s2|] eqn:A2 end.
-    + inversion U; subst. pose proof (assign_flag _ _ _ _ A2) as Ff. rewrite F' in Ff. symmetry in Ff.
-      destruct (assign_GInv _ _ _ _ (HI Ff) Ff A2) as (H1 & _ & _). tauto.
+    + inversion U; subst. destruct (assign_GInv _ _ _ _ GI A2) as (H & _). exact H.
     + match type of U with context [assign (set_flag st) c ?bs2] =>
         destruct (assign (set_flag st) c bs2) as [s3|] eqn:A3 end.
-      * inversion U; subst. pose proof (assign_flag _ _ _ _ A3) as Ff. rewrite F' in Ff. discriminate.
+      * inversion U; subst. destruct (assign_GInv _ _ _ _ (GInv_set_flag _ GI) A3) as (H & _). exact H.
+      * inversion U; subst. apply GInv_set_flag. exact GI.
+Qed.
+
+(* the flag is only ever raised; when it is not, a C3 attempt succeeded *)
+Lemma update_supertypes_flag st c st' r :
+  GInv st -> update_supertypes st c = (st', r) -> flag st' = false -> flag st = false /\ r = None.
+Proof.
+  intros GI U F'. unfold update_supertypes in U.
+  destruct (assign st c (compute_supertypes (supers_fn st c))) as [s1|] eqn:A1.
+  - inversion U; subst. rewrite <- (assign_flag _ _ _ _ GI A1). tauto.
+  - match type of U with context [assign st c ?bs2] => destruct (assign st c bs2) as [s2|] eqn:A2 end.
+    + inversion U; subst. rewrite <- (assign_flag _ _ _ _ GI A2). tauto.
+    + match type of U with context [assign (set_flag st) c ?bs2] =>
+        destruct (assign (set_flag st) c bs2) as [s3|] eqn:A3 end.
+      * inversion U; subst. rewrite (assign_flag _ _ _ _ (GInv_set_flag _ GI) A3) in F'. discriminate.
       * inversion U; subst. discriminate.
 Qed.
 
@@ -905,6 +1180,19 @@ Proof.
   apply nth_error_None. unfold idx. lia.
 Qed.
 
+Lemma linearize_cached_grow st st1 x bs :
+  (forall b, In b bs -> mro st1 b = mro st b) -> (forall y, bases_fn st1 y = bases_fn st y) ->
+  flag st1 = flag st -> nclasses st1 = S (nclasses st) ->
+  (forall p y, chain (bases_fn st) x p y -> (length p <= nclasses st)%nat) ->
+  linearize_cached st1 x bs = linearize_cached st x bs.
+Proof.
+  intros Hm Hb Hf Hn Hc. unfold linearize_cached. rewrite (map_opt_ext _ (mro st) bs Hm).
+  destruct (map_opt (mro st) bs) as [ms|]; [|reflexivity].
+  destruct (linearize x ms bs); [reflexivity|]. rewrite Hf. unfold fuel_of. rewrite Hn.
+  rewrite (all_bases_ext _ _ Hb). rewrite all_bases_stable; [reflexivity|].
+  intros p y H. specialize (Hc p y H). lia.
+Qed.
+
 (* the fresh class object: no bases yet, linearisation [c] *)
 Lemma GInv_new_class st ss :
   GInv st ->
@@ -921,128 +1209,254 @@ Proof.
   { intros b m M. destruct (mro_Some_cases _ _ _ M) as [[E1 E2]|(k & G & E)].
     - subst. reflexivity.
     - subst m. apply mro_getc. apply Old. assumption. }
+  assert (B1 : forall y, bases_fn st1 y = bases_fn st y).
+  { intros y. unfold bases_fn. rewrite G1. destruct (Z.eq_dec y c) as [E|N]; [subst y; rewrite Gc|]; reflexivity. }
   constructor.
   - intros x k G. rewrite G1 in G. destruct (Z.eq_dec x c) as [E|N].
-    + inversion G; subst. exists []. split; reflexivity.
-    + destruct (L x k G) as (ms & Hm & Hl). exists ms. split; [|assumption].
-      rewrite <- Hm. apply map_opt_ext. intros b Hb.
-      destruct (lc_base_mro _ _ _ _ (L x k G) Hb) as (m & Em). rewrite Em. apply M1. assumption.
+    + inversion G; subst. reflexivity.
+    + unfold lc. rewrite <- (L x k G). apply linearize_cached_grow.
+      * intros b Hb. destruct (lc_base_mro _ _ _ _ (L x k G) Hb) as (m & Em). rewrite Em. apply M1. assumption.
+      * exact B1.
+      * reflexivity.
+      * unfold nclasses, st1. simpl. rewrite app_length. simpl. lia.
+      * intros p y H. apply (chain_bound st rk L Hrk x p y); [right; congruence|exact H].
   - intros y ky x G Hx N0. rewrite G1 in G. destruct (Z.eq_dec y c) as [E|N].
     + inversion G; subst. destruct Hx.
     + destruct (Co y ky x G Hx N0) as (kx & Gx & Hy). exists kx. split; [apply Old; assumption|assumption].
   - intros x kx d G Hd. rewrite G1 in G. destruct (Z.eq_dec x c) as [E|N].
     + inversion G; subst. destruct Hd.
     + destruct (So x kx d G Hd) as (kd & Gd & Hx). exists kd. split; [apply Old; assumption|assumption].
-  - exists rk. intros x y Hy. apply (Hrk x y). unfold bases_fn in *. rewrite G1 in Hy.
-    destruct (Z.eq_dec x c) as [E|N]; [destruct Hy|assumption].
+  - exists rk. intros x y Hy. apply (Hrk x y). rewrite <- B1. exact Hy.
 Qed.
 
 (* ---------- every edit keeps the invariant ---------- *)
 
-Definition HInv (st : state) : Prop := flag st = false -> GInv st.
+(* the state on which a supertype edit runs _update_supertypes *)
+Definition pre_update (o : op) (st : state) : option (state * Z) :=
+  match o with
+  | NewClass supers =>
+    let c := Z.of_nat (S (nclasses st)) in
+    Some (mkState (classes st ++ [mkCls [] [] (zdedup supers) [] [] [c] []]) (insts st) (flag st), c)
+  | AddSuper c s =>
+    match getc st c with
+    | Some k => Some (set_supers st c (if zmem s (c_supers k) then c_supers k else c_supers k ++ [s]), c)
+    | None => None
+    end
+  | RemoveSuper c s =>
+    match getc st c with
+    | Some k => match remove_first Z.eqb s (c_supers k) with
+                | Some ss => Some (set_supers st c ss, c)
+                | None => None
+                end
+    | None => None
+    end
+  | _ => None
+  end.
 
-Theorem step_GInv o st :
-  HInv st -> flag (next st o) = false -> GInv (next st o) /\ flag st = false.
+Lemma graph_op_next o st :
+  graph_op o = true ->
+  match pre_update o st with
+  | Some (s1, c) => next st o = fst (update_supertypes s1 c)
+  | None => next st o = st
+  end.
 Proof.
-  intros HI F'. destruct (graph_op o) eqn:GO.
-  - destruct o; try discriminate; unfold next in *; simpl in *.
-    + (* NewClass *)
-      unfold new_class in *.
-      match type of F' with context [update_supertypes ?s1 ?c1] =>
-        destruct (update_supertypes s1 c1) as [st2 e] eqn:U;
-        assert (H1 : HInv s1) by (intros Ff; apply GInv_new_class; apply HI; exact Ff) end.
-      assert (F2 : flag st2 = false) by (destruct e; exact F').
-      destruct (update_supertypes_GInv _ _ _ _ H1 U F2) as (A & B & C).
-      split; [destruct e; exact A|exact B].
-    + (* AddSuper *)
-      destruct (getc st c) as [k|] eqn:G; simpl in *; [|split; [apply HI|]; assumption].
-      set (ss := if zmem s (c_supers k) then c_supers k else c_supers k ++ [s]) in *.
-      destruct (update_supertypes (set_supers st c ss) c) as [st2 e] eqn:U.
-      assert (H1 : HInv (set_supers st c ss)).
-      { intros Ff. eapply GInv_crel; [apply crel_set_supers|]. apply HI.
-        rewrite <- (crel_flag _ _ _ (crel_set_supers st c ss)). exact Ff. }
-      assert (F2 : flag st2 = false) by (destruct e; exact F').
-      destruct (update_supertypes_GInv _ _ _ _ H1 U F2) as (A & B & C).
-      split; [destruct e; exact A|]. rewrite <- (crel_flag _ _ _ (crel_set_supers st c ss)). exact B.
-    + (* RemoveSuper *)
-      destruct (getc st c) as [k|] eqn:G; simpl in *; [|split; [apply HI|]; assumption].
-      destruct (remove_first Z.eqb s (c_supers k)) as [ss|]; simpl in *; [|split; [apply HI|]; assumption].
-      destruct (update_supertypes (set_supers st c ss) c) as [st2 e] eqn:U.
-      assert (H1 : HInv (set_supers st c ss)).
-      { intros Ff. eapply GInv_crel; [apply crel_set_supers|]. apply HI.
-        rewrite <- (crel_flag _ _ _ (crel_set_supers st c ss)). exact Ff. }
-      assert (F2 : flag st2 = false) by (destruct e; exact F').
-      destruct (update_supertypes_GInv _ _ _ _ H1 U F2) as (A & B & C).
-      split; [destruct e; exact A|]. rewrite <- (crel_flag _ _ _ (crel_set_supers st c ss)). exact B.
-  - pose proof (step_other_crel o st GO) as C.
-    assert (Ff : flag st = false) by (rewrite <- (crel_flag _ _ _ C); exact F').
-    split; [|exact Ff]. eapply GInv_crel; [exact C|]. apply HI. exact Ff.
+  intros GO. destruct o; try discriminate; unfold next; simpl.
+  - unfold new_class. destruct (update_supertypes _ _) as [st2 [e|]]; reflexivity.
+  - destruct (getc st c) as [k|]; [|reflexivity]. destruct (update_supertypes _ _) as [st2 [e|]]; reflexivity.
+  - destruct (getc st c) as [k|]; [|reflexivity].
+    destruct (remove_first Z.eqb s (c_supers k)) as [ss|]; [|reflexivity].
+    destruct (update_supertypes _ _) as [st2 [e|]]; reflexivity.
 Qed.
 
-(* histories *)
-Lemma history_GInv_from ops : forall st,
-  HInv st -> flag (fold_left next ops st) = false -> GInv (fold_left next ops st) /\ flag st = false.
+Lemma pre_update_GInv o st s1 c : GInv st -> pre_update o st = Some (s1, c) -> GInv s1 /\ flag s1 = flag st.
 Proof.
-  induction ops as [|o r IH]; intros st HI F; simpl in *.
-  - split; [apply HI|]; assumption.
-  - assert (H1 : HInv (next st o)).
-    { intros Ff. destruct (step_GInv o st HI Ff) as [A _]. exact A. }
-    destruct (IH (next st o) H1 F) as [A B]. split; [exact A|].
-    destruct (step_GInv o st HI B) as [_ C]. exact C.
+  intros GI H. destruct o; try discriminate; simpl in H.
+  - inversion H; subst. split; [apply GInv_new_class; assumption|reflexivity].
+  - destruct (getc st c0) as [k|]; [|discriminate]. inversion H; subst.
+    split; [eapply GInv_crel; [apply crel_set_supers|assumption]|apply (crel_flag _ _ _ (crel_set_supers st c _))].
+  - destruct (getc st c0) as [k|]; [|discriminate].
+    destruct (remove_first Z.eqb s (c_supers k)) as [ss|]; [|discriminate]. inversion H; subst.
+    split; [eapply GInv_crel; [apply crel_set_supers|assumption]|apply (crel_flag _ _ _ (crel_set_supers st c ss))].
 Qed.
 
-Theorem history_GInv ops fl :
-  flag (fold_left next ops (empty_state fl)) = false -> GInv (fold_left next ops (empty_state fl)).
-Proof. intros F. apply (history_GInv_from ops); [intros _; apply GInv_empty|exact F]. Qed.
+Theorem step_GInv o st : GInv st -> GInv (next st o).
+Proof.
+  intros GI. destruct (graph_op o) eqn:GO.
+  - pose proof (graph_op_next o st GO) as N. destruct (pre_update o st) as [[s1 c]|] eqn:P.
+    + rewrite N. destruct (pre_update_GInv _ _ _ _ GI P) as [G1 _].
+      destruct (update_supertypes s1 c) as [st2 r] eqn:U. simpl. eapply update_supertypes_GInv; eauto.
+    + rewrite N. exact GI.
+  - eapply GInv_crel; [exact (step_other_crel o st GO)|exact GI].
+Qed.
+
+(* the replacement, once installed, stays *)
+Theorem step_flag o st : GInv st -> flag (next st o) = false -> flag st = false.
+Proof.
+  intros GI F'. destruct (graph_op o) eqn:GO.
+  - pose proof (graph_op_next o st GO) as N. destruct (pre_update o st) as [[s1 c]|] eqn:P.
+    + rewrite N in F'. destruct (pre_update_GInv _ _ _ _ GI P) as [G1 Ff].
+      destruct (update_supertypes s1 c) as [st2 r] eqn:U. simpl in F'.
+      destruct (update_supertypes_flag _ _ _ _ G1 U F') as [H _]. congruence.
+    + rewrite N in F'. exact F'.
+  - rewrite <- (crel_flag _ _ _ (step_other_crel o st GO)). exact F'.
+Qed.
+
+Theorem history_GInv_from ops : forall st, GInv st -> GInv (fold_left next ops st).
+Proof. induction ops as [|o r IH]; intros st GI; simpl; [exact GI|]. apply IH. apply step_GInv. exact GI. Qed.
+
+Theorem history_GInv ops fl : GInv (fold_left next ops (empty_state fl)).
+Proof. apply history_GInv_from. apply GInv_empty. Qed.
+
+Lemma history_flag_from ops : forall st, GInv st -> flag (fold_left next ops st) = false -> flag st = false.
+Proof.
+  induction ops as [|o r IH]; intros st GI F; simpl in F; [exact F|].
+  apply (step_flag o st GI). apply IH; [apply step_GInv; exact GI|exact F].
+Qed.
 
 (* the linearisations Python caches are those of the current bases, in every
    state reached without installing the replacement *)
 Theorem history_consistent ops fl :
   flag (fold_left next ops (empty_state fl)) = false -> consistent (fold_left next ops (empty_state fl)).
-Proof. intros F. apply GInv_consistent; [apply history_GInv|]; exact F. Qed.
+Proof. intros F. apply GInv_consistent; [apply history_GInv|exact F]. Qed.
 
-(* ---------- the theorems of MetaEditProofs.v for whole histories ---------- *)
+(* ... and in every state, replacement or not, they list exactly the classes
+   reachable through the current bases *)
+Definition closed_caches (st : state) : Prop :=
+  forall c l, mro st c = Some l -> forall x, In x l <-> reach (bases_fn st) c x.
 
-Lemma flag_false_initial ops fl : flag (fold_left next ops (empty_state fl)) = false -> fl = false.
+Theorem history_closed_caches ops fl : closed_caches (fold_left next ops (empty_state fl)).
+Proof. intros c l M. apply (GInv_MR _ (history_GInv ops fl) c l M). Qed.
+
+(* ---------- visibility and isinstance from closed caches ---------- *)
+(* The theorems of MetaEditProofs.v use `consistent st` and `flag st = false`
+   only through: a cached linearisation lists what the class reaches.  Here
+   they are again from that fact alone, so that they also cover the states in
+   which pyecore's replacement linearisation is installed. *)
+
+Theorem class_lookup_sound_cc st c n e :
+  Inv st -> closed_caches st -> class_lookup st c n = Some e ->
+  exists d, in_closure st c d /\
+    match e with
+    | EFeat f => declares_feat st d n f
+    | EFun s => declares_op st d n s
+    | EBeh _ => True
+    end.
 Proof.
-  intros F. destruct (history_GInv_from ops (empty_state fl) (fun _ => GInv_empty fl) F) as [_ H]. exact H.
+  intros I Cc H. destruct (class_lookup_found _ _ _ _ H) as (l & d & M & Hd & E).
+  apply (Cc _ _ M) in Hd.
+  unfold ns_of in E. destruct (getc st d) as [k|] eqn:G; [|discriminate].
+  pose proof (getc_pos _ _ _ G) as P.
+  exists d. split; [apply reach_bases_supers; [assumption|assumption|lia]|].
+  pose proof (ok_entries _ (Inv_getc _ _ _ I G) _ _ E) as K.
+  destruct e; simpl in K; [| |exact Logic.I].
+  - unfold declares_feat, feats_of. rewrite G. assumption.
+  - unfold declares_op, ops_of. rewrite G. assumption.
 Qed.
 
-Lemma history_sound_facts ops fl :
-  sides ops (empty_state fl) -> flag (fold_left next ops (empty_state fl)) = false ->
-  Inv (fold_left next ops (empty_state fl)) /\ consistent (fold_left next ops (empty_state fl)).
-Proof. intros S F. split; [apply history_Inv; exact S|apply history_consistent; exact F]. Qed.
-
-Lemma history_full_facts ops fl :
-  wf_history ops (empty_state fl) -> flag (fold_left next ops (empty_state fl)) = false ->
-  Inv (fold_left next ops (empty_state fl)) /\ Full (fold_left next ops (empty_state fl)) /\
-  consistent (fold_left next ops (empty_state fl)).
-Proof.
-  intros W F. destruct (history_Inv_Full ops (empty_state fl) (Inv_empty fl) (Full_empty fl) W) as [I Fu].
-  split; [exact I|]. split; [exact Fu|apply history_consistent; exact F].
-Qed.
-
-Theorem history_visible_sound ops fl i n x :
-  let st := fold_left next ops (empty_state fl) in
-  sides ops (empty_state fl) -> flag st = false -> geti st i = Some x -> visible st i n ->
+Theorem visible_sound_cc st i n x :
+  Inv st -> closed_caches st -> geti st i = Some x -> visible st i n ->
   (exists d, in_closure st (i_cls x) d /\
      ((exists f, declares_feat st d n f) \/ (exists s, declares_op st d n s) \/
       (exists b, ns_get n (ns_of st d) = Some (EBeh b))))
   \/ has_slot st i n.
 Proof.
-  intros st S F G V. destruct (history_sound_facts ops fl S F) as [I Co].
-  exact (visible_sound st i n x I Co F G V).
+  intros I Cc G V. destruct (visible_cases _ _ _ _ G V) as [(e & L)|H]; [left|right; assumption].
+  destruct (class_lookup_sound_cc _ _ _ _ I Cc L) as (d & Hd & K).
+  destruct e as [f|s|b].
+  - exists d. split; [assumption|]. left. exists f. assumption.
+  - exists d. split; [assumption|]. right. left. exists s. assumption.
+  - destruct (class_lookup_found _ _ _ _ L) as (l & d' & M & Hd' & E).
+    apply (Cc _ _ M) in Hd'.
+    assert (P : d' <> 0).
+    { intros Z0. subst. unfold ns_of in E. simpl in E. discriminate. }
+    exists d'. split; [apply reach_bases_supers; assumption|]. right. right. exists b. assumption.
 Qed.
 
-Theorem history_declared_feature_lookup ops fl c l d n f :
-  let st := fold_left next ops (empty_state fl) in
-  wf_history ops (empty_state fl) -> flag st = false -> mro st c = Some l -> in_closure st c d ->
+Corollary untouched_sound_cc st i n x :
+  Inv st -> closed_caches st -> geti st i = Some x -> ns_get n (i_dict x) = None ->
+  visible st i n ->
+  exists d, in_closure st (i_cls x) d /\
+     ((exists f, declares_feat st d n f) \/ (exists s, declares_op st d n s) \/
+      (exists b, ns_get n (ns_of st d) = Some (EBeh b))).
+Proof.
+  intros I Cc G D V. destruct (visible_sound_cc _ _ _ _ I Cc G V) as [H|(x' & s & G' & D')]; [assumption|].
+  rewrite G in G'. inversion G'; subst. congruence.
+Qed.
+
+Theorem isinstance_closure_cc st i c x l :
+  Inv st -> closed_caches st -> geti st i = Some x -> mro st (i_cls x) = Some l -> c <> 0 ->
+  (isinstance_m st i c = true <-> in_closure st (i_cls x) c).
+Proof.
+  intros I Cc G M N. unfold isinstance_m. rewrite G, M. rewrite zmem_In.
+  rewrite (Cc _ _ M c).
+  split; intros H; [apply reach_bases_supers|apply reach_supers_bases]; assumption.
+Qed.
+
+Lemma in_closure_in_mro_cc st c d l :
+  Inv st -> closed_caches st -> mro st c = Some l -> in_closure st c d -> d <> 0 -> In d l.
+Proof.
+  intros I Cc M R N. apply (Cc _ _ M). apply reach_supers_bases; assumption.
+Qed.
+
+Theorem declared_is_found_cc st c l d n :
+  Inv st -> Full st -> closed_caches st -> mro st c = Some l -> in_closure st c d ->
+  ((exists f, declares_feat st d n f) \/ (exists s, declares_op st d n s)) ->
+  exists e, class_lookup st c n = Some e.
+Proof.
+  intros I Fu Cc M R D.
+  assert (N : d <> 0) by (destruct D as [(f & D)|(s & D)]; [eapply declares_feat_pos|eapply declares_op_pos]; eauto).
+  pose proof (in_closure_in_mro_cc _ _ _ _ I Cc M R N) as Hd.
+  unfold class_lookup. rewrite M.
+  destruct D as [(f & Hf & En)|(s & o & Ho & En & PD)].
+  - unfold feats_of in Hf. destruct (getc st d) as [k|] eqn:G; [|destruct Hf].
+    apply (first_some_exists _ _ d (EFeat f)); [assumption|].
+    unfold ns_of. rewrite G. rewrite <- En. apply (full_feats _ (Full_getc _ _ _ Fu G)). assumption.
+  - unfold ops_of in Ho. destruct (getc st d) as [k|] eqn:G; [|destruct Ho].
+    destruct (full_ops _ (Full_getc _ _ _ Fu G) o s Ho PD) as [E|(b & E)]; unfold op_key in E; rewrite En in E.
+    + apply (first_some_exists _ _ d (EFun s)); [assumption|]. unfold ns_of. rewrite G. assumption.
+    + apply (first_some_exists _ _ d (EBeh b)); [assumption|]. unfold ns_of. rewrite G. assumption.
+Qed.
+
+Theorem declared_feature_lookup_cc st c l d n f :
+  Inv st -> Full st -> closed_caches st -> mro st c = Some l -> in_closure st c d ->
   declares_feat st d n f ->
   (forall z, In z l -> z <> d -> ns_get n (ns_of st z) = None) ->
   class_lookup st c n = Some (EFeat f).
 Proof.
-  intros st W F M R D U. destruct (history_full_facts ops fl W F) as (I & Fu & Co).
-  exact (declared_feature_lookup st c l d n f I Fu Co F M R D U).
+  intros I Fu Cc M R D U.
+  pose proof (in_closure_in_mro_cc _ _ _ _ I Cc M R (declares_feat_pos _ _ _ _ D)) as Hd.
+  unfold class_lookup. rewrite M. destruct D as [Hf En].
+  unfold feats_of in Hf. destruct (getc st d) as [k|] eqn:G; [|destruct Hf].
+  apply (first_some_unique _ _ d); [assumption| |assumption].
+  unfold ns_of. rewrite G. rewrite <- En. apply (full_feats _ (Full_getc _ _ _ Fu G)). assumption.
+Qed.
+
+Theorem declared_is_visible_cc st i x l d n :
+  Inv st -> Full st -> closed_caches st -> geti st i = Some x -> mro st (i_cls x) = Some l ->
+  in_closure st (i_cls x) d ->
+  ((exists f, declares_feat st d n f) \/ (exists s, declares_op st d n s)) ->
+  visible st i n.
+Proof.
+  intros I Fu Cc G M R D. destruct (declared_is_found_cc _ _ _ _ _ I Fu Cc M R D) as (e & L).
+  unfold visible, getattr_m. rewrite G, L.
+  destruct e as [f|s|b]; destruct (ns_get n (i_dict x)) as [[? ?|? ?|?]|]; simpl; try discriminate.
+  unfold default_slot. destruct (f_many f); discriminate.
+Qed.
+
+Theorem visible_iff_declared_cc st i x l n :
+  Inv st -> Full st -> closed_caches st -> geti st i = Some x -> mro st (i_cls x) = Some l ->
+  ns_get n (i_dict x) = None ->
+  (forall d b, ns_get n (ns_of st d) = Some (EBeh b) -> exists s, declares_op st d n s) ->
+  (visible st i n <->
+   exists d, in_closure st (i_cls x) d /\
+     ((exists f, declares_feat st d n f) \/ (exists s, declares_op st d n s))).
+Proof.
+  intros I Fu Cc G M D NB. split.
+  - intros V. destruct (untouched_sound_cc _ _ _ _ I Cc G D V) as (d & R & [H|[H|(b & H)]]).
+    + exists d. tauto.
+    + exists d. tauto.
+    + exists d. split; [assumption|]. right. eapply NB; eauto.
+  - intros (d & R & H). eapply declared_is_visible_cc; eauto.
 Qed.
 
 (* ---------- every instance keeps an existing class ---------- *)
@@ -1247,38 +1661,239 @@ Proof.
   exists (c_mro k). apply mro_getc. exact Gk.
 Qed.
 
+(* ---------- the theorems for whole histories ---------- *)
+
+Lemma history_sound_facts ops fl :
+  sides ops (empty_state fl) ->
+  Inv (fold_left next ops (empty_state fl)) /\ closed_caches (fold_left next ops (empty_state fl)).
+Proof. intros S. split; [apply history_Inv; exact S|apply history_closed_caches]. Qed.
+
+Lemma history_full_facts ops fl :
+  wf_history ops (empty_state fl) ->
+  Inv (fold_left next ops (empty_state fl)) /\ Full (fold_left next ops (empty_state fl)) /\
+  closed_caches (fold_left next ops (empty_state fl)).
+Proof.
+  intros W. destruct (history_Inv_Full ops (empty_state fl) (Inv_empty fl) (Full_empty fl) W) as [I Fu].
+  split; [exact I|]. split; [exact Fu|apply history_closed_caches].
+Qed.
+
+Theorem history_visible_sound ops fl i n x :
+  let st := fold_left next ops (empty_state fl) in
+  sides ops (empty_state fl) -> geti st i = Some x -> visible st i n ->
+  (exists d, in_closure st (i_cls x) d /\
+     ((exists f, declares_feat st d n f) \/ (exists s, declares_op st d n s) \/
+      (exists b, ns_get n (ns_of st d) = Some (EBeh b))))
+  \/ has_slot st i n.
+Proof.
+  intros st S G V. destruct (history_sound_facts ops fl S) as [I Cc].
+  exact (visible_sound_cc st i n x I Cc G V).
+Qed.
+
 Theorem history_declared_is_visible ops fl i x d n :
   let st := fold_left next ops (empty_state fl) in
-  wf_history ops (empty_state fl) -> flag st = false -> geti st i = Some x ->
+  wf_history ops (empty_state fl) -> geti st i = Some x ->
   in_closure st (i_cls x) d ->
   ((exists f, declares_feat st d n f) \/ (exists s, declares_op st d n s)) ->
   visible st i n.
 Proof.
-  intros st W F G R D. destruct (history_full_facts ops fl W F) as (I & Fu & Co).
+  intros st W G R D. destruct (history_full_facts ops fl W) as (I & Fu & Cc).
   destruct (IC_mro st i x (history_IC ops _ (IC_empty fl)) G) as (l & M).
-  exact (declared_is_visible st i x l d n I Fu Co F G M R D).
+  exact (declared_is_visible_cc st i x l d n I Fu Cc G M R D).
 Qed.
 
 Theorem history_visible_iff_declared ops fl i x n :
   let st := fold_left next ops (empty_state fl) in
-  wf_history ops (empty_state fl) -> flag st = false -> geti st i = Some x ->
+  wf_history ops (empty_state fl) -> geti st i = Some x ->
   ns_get n (i_dict x) = None ->
   (forall d b, ns_get n (ns_of st d) = Some (EBeh b) -> exists s, declares_op st d n s) ->
   (visible st i n <->
    exists d, in_closure st (i_cls x) d /\
      ((exists f, declares_feat st d n f) \/ (exists s, declares_op st d n s))).
 Proof.
-  intros st W F G D NB. destruct (history_full_facts ops fl W F) as (I & Fu & Co).
+  intros st W G D NB. destruct (history_full_facts ops fl W) as (I & Fu & Cc).
   destruct (IC_mro st i x (history_IC ops _ (IC_empty fl)) G) as (l & M).
-  exact (visible_iff_declared st i x l n I Fu Co F G M D NB).
+  exact (visible_iff_declared_cc st i x l n I Fu Cc G M D NB).
+Qed.
+
+Theorem history_declared_feature_lookup ops fl c l d n f :
+  let st := fold_left next ops (empty_state fl) in
+  wf_history ops (empty_state fl) -> mro st c = Some l -> in_closure st c d ->
+  declares_feat st d n f ->
+  (forall z, In z l -> z <> d -> ns_get n (ns_of st z) = None) ->
+  class_lookup st c n = Some (EFeat f).
+Proof.
+  intros st W M R D U. destruct (history_full_facts ops fl W) as (I & Fu & Cc).
+  exact (declared_feature_lookup_cc st c l d n f I Fu Cc M R D U).
 Qed.
 
 Theorem history_isinstance_closure ops fl i c x :
   let st := fold_left next ops (empty_state fl) in
-  sides ops (empty_state fl) -> flag st = false -> geti st i = Some x -> c <> 0 ->
+  sides ops (empty_state fl) -> geti st i = Some x -> c <> 0 ->
   (isinstance_m st i c = true <-> in_closure st (i_cls x) c).
 Proof.
-  intros st S F G N. destruct (history_sound_facts ops fl S F) as [I Co].
+  intros st S G N. destruct (history_sound_facts ops fl S) as [I Cc].
   destruct (IC_mro st i x (history_IC ops _ (IC_empty fl)) G) as (l & M).
-  exact (isinstance_closure st i c x l I Co F G M N).
+  exact (isinstance_closure_cc st i c x l I Cc G M N).
+Qed.
+
+(* ---------- when the replacement gets installed ---------- *)
+
+(* exactly when a supertype edit (or a class creation) finds no C3 order for
+   the class and its registered subclasses, neither with the bases in declared
+   order nor sorted by number of supertypes -- each attempt being CPython's
+   type_set_bases: cycle check, then mro_hierarchy against the caches *)
+Theorem flag_raised_iff o st :
+  GInv st -> flag st = false ->
+  (flag (next st o) = true <->
+   exists s1 c, pre_update o st = Some (s1, c) /\
+     assign s1 c (compute_supertypes (supers_fn s1 c)) = None /\
+     assign s1 c (sort_desc (fun x => length (all_supertypes s1 x)) (compute_supertypes (supers_fn s1 c))) = None).
+Proof.
+  intros GI F. destruct (graph_op o) eqn:GO.
+  - pose proof (graph_op_next o st GO) as N. destruct (pre_update o st) as [[s1 c]|] eqn:P.
+    + destruct (pre_update_GInv _ _ _ _ GI P) as [G1 F1]. rewrite N. unfold update_supertypes.
+      destruct (assign s1 c (compute_supertypes (supers_fn s1 c))) as [a1|] eqn:A1.
+      * simpl. rewrite (assign_flag _ _ _ _ G1 A1), F1, F. split; [discriminate|].
+        intros (s & c' & E & H1 & _). inversion E; subst. congruence.
+      * destruct (assign s1 c (sort_desc (fun x => length (all_supertypes s1 x)) (compute_supertypes (supers_fn s1 c)))) as [a2|] eqn:A2.
+        -- simpl. rewrite (assign_flag _ _ _ _ G1 A2), F1, F. split; [discriminate|].
+           intros (s & c' & E & _ & H2). inversion E; subst. congruence.
+        -- split; [intros _; exists s1, c; tauto|]. intros _.
+           destruct (assign (set_flag s1) c _) as [a3|] eqn:A3; simpl; [|reflexivity].
+           rewrite (assign_flag _ _ _ _ (GInv_set_flag _ G1) A3). reflexivity.
+    + rewrite N, F. split; [discriminate|]. intros (s & c' & E & _). discriminate.
+  - rewrite (crel_flag _ _ _ (step_other_crel o st GO)), F. split; [discriminate|].
+    intros (s & c' & E & _). destruct o; discriminate.
+Qed.
+
+(* ---------- the traversal's fuel is a model artefact that never matters ---------- *)
+
+Definition subs_fn (st : state) (x : Z) : list Z :=
+  match getc st x with Some k => c_subs k | None => [] end.
+
+Lemma subs_fn_crel st st' : crel same_graph st st' -> forall x, subs_fn st' x = subs_fn st x.
+Proof.
+  intros (A & _) x. specialize (A x). unfold subs_fn, orel2 in *.
+  destruct (getc st x), (getc st' x); try tauto. destruct A as [_ H]. exact H.
+Qed.
+
+(* only caches change, whatever the outcome of the visits *)
+Lemma hier_frame fuel : forall st x st', hier fuel st x = Some st' -> crel same_graph st st'.
+Proof.
+  induction fuel as [|f IH]; intros st x st' H; [discriminate|]. simpl in H.
+  destruct (getc st x) as [k|] eqn:G; [|discriminate].
+  destruct (linearize_cached st x (c_bases k)) as [l|]; [|discriminate].
+  assert (C0 : crel same_graph st (setc st x (with_mro l k))).
+  { apply (crel_setc same_graph _ _ k); [exact same_graph_refl|assumption|split; reflexivity]. }
+  revert H C0. generalize (setc st x (with_mro l k)).
+  induction (c_subs k) as [|d r IHr]; intros s0 H C0; simpl in H.
+  - inversion H; subst. exact C0.
+  - destruct (hier f s0 d) as [s1|] eqn:E; [|rewrite fold_obind_None in H; discriminate].
+    apply (IHr s1 H). eapply crel_trans; [exact same_graph_trans|exact C0|eapply IH; eauto].
+Qed.
+
+Lemma fold_hier_ext (h h' : state -> Z -> option state) st0 ds :
+  (forall s d s', h s d = Some s' -> crel same_graph s s') ->
+  (forall s d, crel same_graph st0 s -> In d ds -> h' s d = h s d) ->
+  forall s0, crel same_graph st0 s0 ->
+    fold_left (fun acc d => obind acc (fun s => h' s d)) ds (Some s0) =
+    fold_left (fun acc d => obind acc (fun s => h s d)) ds (Some s0).
+Proof.
+  intros Hf He. induction ds as [|d r IH]; intros s0 C; simpl; [reflexivity|].
+  rewrite (He s0 d C (or_introl eq_refl)). destruct (h s0 d) as [s1|] eqn:E.
+  - apply IH.
+    + intros s d' Cs Hd. apply He; [exact Cs|right; exact Hd].
+    + eapply crel_trans; [exact same_graph_trans|exact C|eapply Hf; eauto].
+  - rewrite !fold_obind_None. reflexivity.
+Qed.
+
+(* more fuel than the longest chain of registered subclasses changes nothing *)
+Lemma hier_fuel f : forall st c,
+  (forall p x, chain (subs_fn st) c p x -> (length p < f)%nat) ->
+  forall F, (f <= F)%nat -> hier F st c = hier f st c.
+Proof.
+  induction f as [|f IH]; intros st c Hc F Le.
+  - specialize (Hc [] c eq_refl). simpl in Hc. lia.
+  - destruct F as [|F]; [lia|]. simpl.
+    destruct (getc st c) as [k|] eqn:G; [|reflexivity].
+    destruct (linearize_cached st c (c_bases k)) as [l|]; [|reflexivity].
+    assert (C0 : crel same_graph st (setc st c (with_mro l k))).
+    { apply (crel_setc same_graph _ _ k); [exact same_graph_refl|assumption|split; reflexivity]. }
+    apply (fold_hier_ext (hier f) (hier F) (setc st c (with_mro l k)) (c_subs k)).
+    + intros s d s' H. eapply hier_frame; eauto.
+    + intros s d Cs Hd. apply IH; [|lia]. intros p x Hp.
+      assert (E : forall y, subs_fn s y = subs_fn st y).
+      { intros y. rewrite (subs_fn_crel _ _ Cs). apply (subs_fn_crel _ _ C0). }
+      assert (Hp' : chain (subs_fn st) c (d :: p) x).
+      { split; [unfold subs_fn; rewrite G; exact Hd|].
+        clear -Hp E. revert d Hp. induction p as [|b p IHp]; intros d Hp; simpl in *; [exact Hp|].
+        destruct Hp as [Hb Hp]. rewrite E in Hb. split; [exact Hb|]. apply IHp. exact Hp. }
+      specialize (Hc _ _ Hp'). simpl in Hc. lia.
+    + apply crel_refl. exact same_graph_refl.
+Qed.
+
+Lemma chain_ext (g g' : Z -> list Z) : (forall y, g' y = g y) -> forall p c x, chain g' c p x -> chain g c p x.
+Proof.
+  intros E. induction p as [|b p IH]; intros c x H; simpl in *; [exact H|].
+  destruct H as [Hb H]. rewrite E in Hb. split; [exact Hb|]. apply IH. exact H.
+Qed.
+
+Lemma chain_NoDup_inc (g : Z -> list Z) (rk : Z -> nat) :
+  (forall c b, In b (g c) -> (rk c < rk b)%nat) -> forall p c x, chain g c p x -> NoDup (c :: p).
+Proof.
+  intros Hrk.
+  assert (R : forall p c x y, chain g c p x -> In y p -> (rk c < rk y)%nat).
+  { induction p as [|b p IH]; intros c x y H Hy; [destruct Hy|]. simpl in H. destruct H as [Hb H].
+    pose proof (Hrk _ _ Hb). destruct Hy as [Hy|Hy]; [subst; assumption|].
+    specialize (IH b x y H Hy). lia. }
+  induction p as [|b p IH]; intros c x H.
+  - constructor; [intros []|constructor].
+  - constructor.
+    + intros Hin. pose proof (R _ _ _ _ H Hin). lia.
+    + simpl in H. destruct H as [_ H]. eapply IH; eauto.
+Qed.
+
+Lemma getc_range st x : getc st x <> None -> In x (zseq 1 (nclasses st)).
+Proof.
+  intros N. destruct (getc st x) as [k|] eqn:G; [|congruence]. pose proof (getc_pos _ _ _ G) as P.
+  unfold getc in G. destruct (Z.leb_spec x 0); [lia|]. apply nth_error_Some_lt in G.
+  apply zseq_In. unfold idx, nclasses in *. lia.
+Qed.
+
+(* chains of registered subclasses are shorter than the number of classes *)
+Lemma subs_chain_bound st :
+  GInv st -> forall c p x, getc st c <> None -> chain (subs_fn st) c p x -> (length p < nclasses st)%nat.
+Proof.
+  intros [L _ So (rk & Hrk)] c p x Gc H.
+  assert (Inc : forall a b, In b (subs_fn st a) -> (rk a < rk b)%nat /\ getc st b <> None).
+  { intros a b Hb. unfold subs_fn in Hb. destruct (getc st a) as [ka|] eqn:Ga; [|destruct Hb].
+    destruct (So a ka b Ga Hb) as (kb & Gb & Ha). split; [|congruence].
+    apply Hrk. rewrite (bases_fn_getc _ _ _ Gb). exact Ha. }
+  pose proof (chain_NoDup_inc _ rk (fun a b Hb => proj1 (Inc a b Hb)) p c x H) as ND.
+  assert (Ex : forall q a y, getc st a <> None -> chain (subs_fn st) a q y -> forall z, In z q -> getc st z <> None).
+  { induction q as [|b q IH]; intros a y Ga Hq z Hz; [destruct Hz|]. simpl in Hq. destruct Hq as [Hb Hq].
+    destruct (Inc a b Hb) as [_ Gb]. destruct Hz as [Hz|Hz]; [subst; exact Gb|]. eapply IH; eauto. }
+  assert (Len : (length (c :: p) <= length (zseq 1 (nclasses st)))%nat).
+  { apply NoDup_incl_length; [assumption|]. intros y [Hy|Hy]; apply getc_range; [subst; assumption|].
+    eapply Ex; eauto. }
+  rewrite zseq_length in Len. simpl in Len. lia.
+Qed.
+
+(* a __bases__ assignment never fails for lack of fuel in the model *)
+Theorem assign_fuel_enough st c k bs F :
+  GInv st -> getc st c = Some k -> (fuel_of st <= F)%nat ->
+  hier F (setc st c (with_bases bs k)) c = hier (fuel_of st) (setc st c (with_bases bs k)) c.
+Proof.
+  intros GI G Le. set (st1 := setc st c (with_bases bs k)).
+  assert (E : forall y, subs_fn st1 y = subs_fn st y).
+  { intros y. unfold subs_fn, st1. destruct (Z.eq_dec c y) as [Ey|Ny].
+    - subst y. rewrite (getc_setc_same _ _ _ _ G), G. reflexivity.
+    - rewrite (getc_setc_other _ _ _ _ (getc_pos _ _ _ G) Ny). reflexivity. }
+  assert (Hc : forall p x, chain (subs_fn st1) c p x -> (length p < S (nclasses st))%nat).
+  { intros p x H. apply (chain_ext _ _ E) in H.
+    assert (N : getc st c <> None) by congruence.
+    pose proof (subs_chain_bound st GI c p x N H). lia. }
+  unfold fuel_of in *.
+  rewrite (hier_fuel (S (nclasses st)) st1 c Hc F) by lia.
+  rewrite (hier_fuel (S (nclasses st)) st1 c Hc (S (S (nclasses st)))) by lia. reflexivity.
 Qed.
